@@ -31,6 +31,8 @@ def run_native(sc, unit, pid, tier):
                 out['discharged'][k] = {'harness': unit['name'], 'desc': txt, 'engine': 'native execution of the real function (stand-in, not a proof)', 'bound': 'bounded(native execution of the single relevant state)'}
         else:
             out['discharged'].pop(k, None)
+            if k in out['failed']:
+                continue  # the first failure message is the informative one
             out['failed'][k] = {'harness': unit['name'], 'desc': txt, 'loc': unit['source'], 'function': 'native',
                                 'replayed': 'REPLAYED on the real code (native build of this tree, %s): %s' % (os.path.basename(unit['source']), txt)}
     out['reports'].append({'unit': unit['name'], 'status': 'ran', 'time_s': round(wall, 2), 'lines': ['%s %s' % (k, st) for k, st, _ in lines]})
